@@ -38,6 +38,16 @@ type HProg struct {
 	Reps   [][]string      `json:"reps"` // per class: representatives (hex)
 	Seed   uint64          `json:"seed"`
 	Abs    json.RawMessage `json:"abs"`
+	// kind "long": explicit structured values instead of the enumeration; each
+	// value is the concatenation of its parts (a byte string repeated N times),
+	// placed between Pre and Suf.
+	Vals [][]HPart `json:"vals"`
+}
+
+// HPart is a byte string (hex) repeated N times.
+type HPart struct {
+	Hex string `json:"hex"`
+	N   int    `json:"n"`
 }
 
 func init() {
@@ -182,6 +192,38 @@ func RunHsFuzz(p *HProg) []Ev {
 				}
 			}
 		}
+		presented := uint64(0) // bytes of header values presented (long values)
+		for _, parts := range p.Vals {
+			var v []byte
+			v = append(v, pre...)
+			for _, pt := range parts {
+				u, _ := hex.DecodeString(pt.Hex)
+				for i := 0; i < pt.N; i++ {
+					v = append(v, u...)
+				}
+			}
+			v = append(v, suf...)
+			presented += uint64(len(v))
+			ok, pan := presentOne(p, string(v))
+			n++
+			if pan != nil {
+				npanic++
+				if npanic <= 3 {
+					shown := v
+					if len(shown) > 120 {
+						shown = shown[:120]
+					}
+					out = append(out, Ev{"e": "PANIC", "v": truncate(fmt.Sprint(pan), 200), "len": len(v),
+						"text": fmt.Sprintf("%q", string(shown)), "parts": parts, "side": p.Side, "header": p.Header})
+				}
+				continue
+			}
+			if ok {
+				normal++
+			} else {
+				errs++
+			}
+		}
 		var rec func(depth int)
 		rec = func(depth int) {
 			present(cur)
@@ -194,12 +236,16 @@ func RunHsFuzz(p *HProg) []Ev {
 				cur = cur[:len(cur)-1]
 			}
 		}
-		rec(0)
+		if len(p.Vals) == 0 {
+			rec(0)
+		}
 		runtime.ReadMemStats(&ms)
 		delta := ms.TotalAlloc - a0
-		out = append(out, Ev{"e": "Batch", "n": n - npanic, "normal": normal, "errors": errs})
-		if n > 0 && delta/uint64(n) > 256<<10 {
-			out = append(out, Ev{"e": "ALLOC", "delta": delta, "n": n})
+		out = append(out, Ev{"e": "Batch", "n": n - npanic, "normal": normal, "errors": errs, "bytes": presented, "alloc": delta})
+		// allocation in proportion to what was presented: the harness itself builds
+		// each value (and, on the client side, the response around it) a few times
+		if n > 0 && delta > 64*presented+uint64(n)*(256<<10)+(4<<20) {
+			out = append(out, Ev{"e": "ALLOC", "delta": delta, "n": n, "bytes": presented})
 		}
 		done <- out
 	}()
